@@ -38,7 +38,7 @@ def main():
         # another path, so such single-line path assertions are neutralised (the copy is run from its own directory)
         import re
         src = open(os.path.join(wt, f'demo{k}.py')).read()
-        src = re.sub(r'(?m)^(\s*)assert [^\n]*__file__[^\n]*$', r'\1pass', src)
+        src = re.sub(r'(?m)^(\s*)assert [^\n]*__file__[^\n]*/tmp/[^\n]*$', r'\1pass', src)
         open(os.path.join(d, 'demo.py'), 'w').write(src)
         r0 = sh('/venv/bin/python demo.py', cwd=d)
         rec['demo_clean_exit'] = r0.returncode
